@@ -194,6 +194,14 @@ impl Git {
         self.cmd(dir, &["clean", "-f", "--", "v-*", "snapshot", "meta"])
     }
 
+    /// Discard everything an interrupted write left behind without committing it: changes to
+    /// tracked files (such as `meta` naming a version that was never committed) as well as
+    /// untracked files. The reset fails harmlessly in a repository without any commit.
+    fn discard_uncommitted(&self, dir: &Path) -> Result<()> {
+        self.cmd_ok(dir, &["reset", "--hard", "HEAD"])?;
+        self.clean_stray_files(dir)
+    }
+
     /// Return how long ago `filename` was last committed in `dir`, or `None` if git has no
     /// record of it. A missing record is treated as "keep".
     fn version_file_age(&self, dir: &Path, filename: &str) -> Result<Option<Duration>> {
@@ -299,6 +307,12 @@ impl GitSyncServer {
             }
         }
 
+        // Discard uncommitted changes left behind by an interrupted write, so that the meta
+        // file read below is the committed one.
+        if is_repo {
+            git.discard_uncommitted(local_path)?;
+        }
+
         // Check for meta file, create and commit if missing.
         let meta_path = local_path.join("meta");
         let meta = match load_meta(&meta_path) {
@@ -400,6 +414,24 @@ impl GitSyncServer {
         let path = self.local_path.join(&filename);
         std::fs::write(&path, Vec::<u8>::from(sealed))?;
         Ok(path)
+    }
+
+    /// Write the version file and the updated meta file, and commit both.
+    fn write_and_commit_version(&mut self, version: &Version) -> Result<()> {
+        let version_path = self.add_version_by_parent_version_id(version)?;
+        #[cfg(gothenburgbitfactory_taskchampion_verif)]
+        crate::server::verif::failpoint("git:add_version:after_write_version")?;
+        self.meta.latest_version = version.version_id;
+        let meta_path = self.write_meta()?;
+        #[cfg(gothenburgbitfactory_taskchampion_verif)]
+        crate::server::verif::failpoint("git:add_version:after_write_meta")?;
+
+        // Commit and push, reverting if push fails.
+        self.git.stage_and_commit(
+            &self.local_path,
+            &[&version_path, &meta_path],
+            "add version",
+        )
     }
 
     /// Find, read, and decrypt the version file whose parent matches `parent_version_id`.
@@ -659,20 +691,13 @@ impl Server for GitSyncServer {
             parent_version_id,
             history_segment,
         };
-        let version_path = self.add_version_by_parent_version_id(&version)?;
-        #[cfg(gothenburgbitfactory_taskchampion_verif)]
-        crate::server::verif::failpoint("git:add_version:after_write_version")?;
-        self.meta.latest_version = version_id;
-        let meta_path = self.write_meta()?;
-        #[cfg(gothenburgbitfactory_taskchampion_verif)]
-        crate::server::verif::failpoint("git:add_version:after_write_meta")?;
-
-        // Commit and push, reverting if push fails.
-        self.git.stage_and_commit(
-            &self.local_path,
-            &[&version_path, &meta_path],
-            "add version",
-        )?;
+        // Write and commit. If that fails part-way, discard the uncommitted changes, or the
+        // meta file would go on naming a version that does not exist.
+        if let Err(e) = self.write_and_commit_version(&version) {
+            self.git.discard_uncommitted(&self.local_path)?;
+            self.read_meta()?;
+            return Err(e);
+        }
 
         if !self.push()? {
             // Push was rejected. Undo the commit. reset_to_remote will fetch, reset --hard,
